@@ -142,7 +142,7 @@ impl Selection {
         self.items.append(items);
         self.pre_selected_watermark = max(self.pre_selected_watermark, self.items.len());
 
-        let height = self.height.load(Ordering::Relaxed);
+        let height = self.known_height();
         if self.items.len() <= self.line_cursor {
             // if not enough items, move cursor down
             self.line_cursor = max(min(self.items.len(), height), 1) - 1;
@@ -156,6 +156,12 @@ impl Selection {
 
     pub fn clear(&mut self) {
         self.items.clear();
+    }
+
+    // height of the list area seen by the last draw; it is unknown (0) until the first item
+    // is drawn, count that as a single row so that the cursor never leaves the list
+    fn known_height(&self) -> usize {
+        max(self.height.load(Ordering::Relaxed), 1)
     }
 
     fn pre_select(&mut self, items: &[MatchedItem]) {
@@ -186,7 +192,7 @@ impl Selection {
         let mut item_cursor = self.item_cursor as i32;
         let item_len = self.items.len() as i32;
 
-        let height = self.height.load(Ordering::Relaxed) as i32;
+        let height = self.known_height() as i32;
 
         line_cursor += diff;
         if line_cursor >= height {
@@ -208,7 +214,7 @@ impl Selection {
     }
 
     pub fn act_select_screen_row(&mut self, rows_to_top: usize) {
-        let height = self.height.load(Ordering::Relaxed);
+        let height = self.known_height();
         let diff = if self.reverse {
             self.line_cursor as i32 - rows_to_top as i32
         } else {
@@ -371,19 +377,19 @@ impl EventHandler for Selection {
                 self.act_deselect_all();
             }
             EvActHalfPageDown(diff) => {
-                let height = 1 - (self.height.load(Ordering::Relaxed) as i32);
+                let height = 1 - (self.known_height() as i32);
                 self.act_move_line_cursor(height * *diff / 2);
             }
             EvActHalfPageUp(diff) => {
-                let height = (self.height.load(Ordering::Relaxed) as i32) - 1;
+                let height = (self.known_height() as i32) - 1;
                 self.act_move_line_cursor(height * *diff / 2);
             }
             EvActPageDown(diff) => {
-                let height = 1 - (self.height.load(Ordering::Relaxed) as i32);
+                let height = 1 - (self.known_height() as i32);
                 self.act_move_line_cursor(height * *diff);
             }
             EvActPageUp(diff) => {
-                let height = (self.height.load(Ordering::Relaxed) as i32) - 1;
+                let height = (self.known_height() as i32) - 1;
                 self.act_move_line_cursor(height * *diff);
             }
             EvActSelectRow(row) => {
